@@ -28,10 +28,10 @@ SETUP (do exactly this):
   cd {wt}
   # warm start so the build is fast (registry deps are reused; workspace crates rebuild):
   cp -r /repo/target {wt}/target 2>/dev/null || true
-All builds/tests run inside {wt} with `--offline` (there is no network). The machine is shared: use at most `-j 6` for cargo builds.
+All builds/tests run inside {wt} with `--offline` (there is no network). The machine is shared and slow: use at most `-j 6` for cargo builds, expect a suite run to take 15-40 minutes, and do not run more than one suite at a time. NEVER use `pkill -f`/`killall` with patterns that could match other users' cargo/rustc/nextest processes.
 
-HOW TO CHECK (c): run   python3 /tmp/mut/suite_diff.py {wt}
-It runs the pinned baseline command (cargo nextest over the whole workspace, offline) and prints `missing_from_pass=N` = number of tests that passed on the original code but do not pass now. N must be 0 (about 166 other tests fail on the original code too - e.g. those needing the cvc5 solver - ignore those). Run it once BEFORE making any change to see the healthy output. Each change must be checked separately (apply change 1 alone -> suite -> demo fails; revert; apply change 2 alone -> suite -> demo fails; revert; demos pass on clean tree).
+HOW TO CHECK (c): run   python3 /tmp/mut/suite_diff.py {wt} --fast
+It runs the pinned baseline command (cargo nextest over the whole workspace, offline; --fast skips two test binaries that need an absent SMT solver and only time out) and prints `missing_from_pass=N` = number of tests that passed on the original code but do not pass now. N must be 0 (about 166 other tests fail on the original code too - e.g. those needing the cvc5 solver - ignore those). Run it once BEFORE making any change to see the healthy output. Each change must be checked separately (apply change 1 alone -> suite -> demo fails; revert; apply change 2 alone -> suite -> demo fails; revert; demos pass on clean tree).
 
 DELIVERABLES: create directory {out}/ containing, for n = 1, 2:
   {out}/patch<n>.diff     - `git diff` of ONLY the source change n (against HEAD), applies with `git apply` at the repo root
